@@ -67,7 +67,7 @@ for m in json.load(open(f'{R}/selftest/mutants/INDEX.json')):
     t.append(f"| {m['name']} | {m['what']} ({m['file']}) | {' '.join(r['result']) if r else 'not run'} |")
 mut='\n'.join(t)
 t=['| neutral edit | what it does | result (all 19 checks must exit 0) |','|---|---|---|']
-for m in json.load(open(f'{R}/selftest/neutral/INDEX.json')):
+for m in json.load(open(f'{R}/selftest/neutral/INDEX.json'))+(json.load(open(f'{R}/selftest/neutral/AGENTS.json')) if os.path.exists(f'{R}/selftest/neutral/AGENTS.json') else []):
     r=lr.get(m['name'])
     ok = r and r['as_expected']
     t.append(f"| {m['name']} | {m['what']} ({m['file']}) | {'all checks exit 0' if ok else ('not run' if not r else 'ALARM: '+' '.join(x for x in r['result'] if ':exit=0:' not in x))} |")
